@@ -841,7 +841,18 @@ pub fn c14_check(cfg: &Config, s: &str) -> (Vec<Violation>, bool, u64) {
 /// items joined, whitespace runs collapsed, segment ends trimmed, empty text
 /// items dropped.
 pub fn normalized_image(o: &ScalableRecipe) -> J {
-    let mut v = serde_json::to_value(o).expect("recipe serializes");
+    // built from the parts so that YAML metadata JSON cannot carry (non-string
+    // keys, tags) falls back to its Debug rendering instead of failing
+    let metadata = serde_json::to_value(&o.metadata).unwrap_or_else(|_| J::String(format!("{:?}", o.metadata.map)));
+    let mut v = json!({
+        "metadata": metadata,
+        "sections": serde_json::to_value(&o.sections).expect("sections serialize"),
+        "ingredients": serde_json::to_value(&o.ingredients).expect("ingredients serialize"),
+        "cookware": serde_json::to_value(&o.cookware).expect("cookware serializes"),
+        "timers": serde_json::to_value(&o.timers).expect("timers serialize"),
+        "inline_quantities": serde_json::to_value(&o.inline_quantities).expect("inline quantities serialize"),
+        "servings": o.servings(),
+    });
     if let Some(sections) = v.get_mut("sections").and_then(|s| s.as_array_mut()) {
         for sec in sections {
             let Some(content) = sec.get_mut("content").and_then(|c| c.as_array_mut()) else { continue };
@@ -902,7 +913,7 @@ pub fn result_image(r: &RecipeResult) -> J {
 
 /// Exact image: JSON of the recipe + ordered diagnostics with labels
 pub fn exact_image(r: &RecipeResult) -> String {
-    let rec = r.output().map(|o| serde_json::to_string(o).expect("recipe serializes"));
+    let rec = r.output().map(|o| serde_json::to_string(o).unwrap_or_else(|_| format!("{o:?}")));
     let diags: Vec<String> = r
         .report()
         .iter()
